@@ -799,6 +799,54 @@ def CInv (K : Kind) (c : Option Cache) (m : Mon) : Prop :=
       ∀ r, c.remote = some r → RInv K r m.gs m.ob
   | _, _ => False
 
+/-- the request side: the monitor's clock is the state's; its `contact` bounds the counter's `lastSyncTime` from above;
+    a pending event is one the monitor knows may be pending -/
+structure CntInv (st : State) (m : Mon) : Prop where
+  clock : m.clock = st.clock
+  contact0 : 0 ≤ m.contact
+  contact : ∀ c, st.cache = some c → c.cnt.lastSync ≤ m.contact
+  may : ∀ c, st.cache = some c → c.cnt.event = true → m.mayEvent = true
+
+theorem cntInv_frame {st st' : State} {m m' : Mon} (h : CntInv st m) (hc : st'.cache = st.cache)
+    (e1 : m'.clock = st'.clock) (e2 : m'.contact = m.contact) (e3 : m'.mayEvent = m.mayEvent) : CntInv st' m' := by
+  refine ⟨e1, by rw [e2]; exact h.contact0, ?_, ?_⟩
+  · intro c hc'; rw [e2]; exact h.contact c (by rw [← hc]; exact hc')
+  · intro c hc' he; rw [e3]; exact h.may c (by rw [← hc]; exact hc') he
+
+/-- the cache changes but its counter does not -/
+theorem cntInv_cache {st st' : State} {m m' : Mon} {c c' : Cache} (h : CntInv st m) (hc : st.cache = some c)
+    (hc' : st'.cache = some c') (hcnt : c'.cnt = c.cnt)
+    (e1 : m'.clock = st'.clock) (e2 : m'.contact = m.contact) (e3 : m'.mayEvent = m.mayEvent) : CntInv st' m' := by
+  refine ⟨e1, by rw [e2]; exact h.contact0, ?_, ?_⟩
+  · intro x hx
+    have : x = c' := by rw [hc'] at hx; exact (Option.some.inj hx).symm
+    subst this; rw [e2, hcnt]; exact h.contact c hc
+  · intro x hx he
+    have : x = c' := by rw [hc'] at hx; exact (Option.some.inj hx).symm
+    subst this; rw [e3]; rw [hcnt] at he; exact h.may c hc he
+
+/-- the counter is (possibly) re-created now: its `lastSyncTime` is the current second -/
+theorem cntInv_sync {st st' : State} {m m' : Mon} {c c' : Cache} (b : Bool) (h : CntInv st m) (hc : st.cache = some c)
+    (hc' : st'.cache = some c') (hcnt : c'.cnt = if b then { event := false, lastSync := unixS st.clock } else c.cnt)
+    (e1 : m'.clock = st'.clock)
+    (e2 : m'.contact = if m.contact < unixS m.clock then unixS m.clock else m.contact)
+    (e3 : m'.mayEvent = m.mayEvent) : CntInv st' m' := by
+  have hck := h.clock
+  have h0 := h.contact0
+  have hl := h.contact c hc
+  refine ⟨e1, ?_, ?_, ?_⟩
+  · rw [e2]; split <;> omega
+  · intro x hx
+    have : x = c' := by rw [hc'] at hx; exact (Option.some.inj hx).symm
+    subst this; rw [e2, hcnt, hck]
+    cases b <;> simp <;> split <;> omega
+  · intro x hx he
+    have : x = c' := by rw [hc'] at hx; exact (Option.some.inj hx).symm
+    subst this; rw [e3]; rw [hcnt] at he
+    cases b
+    · exact h.may c hc (by simpa using he)
+    · simp at he
+
 structure Inv (K : Kind) (cfg : Cfg) (st : State) (m : Mon) : Prop where
   meter : m.meter = st.meter
   meterOK : 0 < st.meter.rateDen
@@ -810,9 +858,11 @@ structure Inv (K : Kind) (cfg : Cfg) (st : State) (m : Mon) : Prop where
   obgs : (observe cfg st).unavail = false → m.ob = m.gs
   cache : CInv K st.cache m
   leader : m.leader = st.leader
+  cnt : CntInv st m
 
 theorem inv_init (K : Kind) (cfg : Cfg) : Inv K cfg {} {} := by
-  refine ⟨rfl, by decide, rfl, rfl, ?_, ?_, BLe.refl _, fun _ => rfl, rfl, rfl⟩
+  refine ⟨rfl, by decide, rfl, rfl, ?_, ?_, BLe.refl _, fun _ => rfl, rfl, rfl,
+    ⟨rfl, Int.le_refl _, fun c hc => (by cases hc), fun c hc _ => (by cases hc)⟩⟩
   · cases cfg with | mk rl cs => cases rl <;> rfl
   · constructor <;> simp [maxInt32] <;> decide
 
@@ -971,8 +1021,8 @@ theorem inv_of_frame {K : Kind} {cfg : Cfg} {st st' : State} {m m' : Mon} (hi : 
     (hc : st'.cache = st.cache) (e_schema : m'.schema = m.schema) (e_synced : m'.synced = m.synced)
     (e_gs : m'.gs = m.gs) (e_ob : m'.ob = if (observe cfg st').unavail then m.ob.sup m.gs else m.gs)
     (e_prev : m'.prev = observe cfg st') (e_meter : m'.meter = st'.meter) (hmok : 0 < st'.meter.rateDen)
-    (e_sh : m'.shards = st'.shardCount) (e_hb : HBInv st'.hb m'.hist) (e_leader : m'.leader = st'.leader) :
-    Inv K cfg st' m' := by
+    (e_sh : m'.shards = st'.shardCount) (e_hb : HBInv st'.hb m'.hist) (e_leader : m'.leader = st'.leader)
+    (e_cnt : CntInv st' m') : Inv K cfg st' m' := by
   have hun : (observe cfg st').unavail = (observe cfg st).unavail := by
     rw [observe_unavail, observe_unavail, gfcOf_cache hc]
   have hob : m'.ob = m.ob := by
@@ -980,7 +1030,7 @@ theorem inv_of_frame {K : Kind} {cfg : Cfg} {st st' : State} {m m' : Mon} (hi : 
     cases hu : (observe cfg st).unavail with
     | true => simp only [if_true]; exact sup_eq_left hi.gsob
     | false => simp only [Bool.false_eq_true, if_false]; exact (hi.obgs hu).symm
-  refine ⟨e_meter, hmok, e_sh, e_hb, e_prev, by rw [e_gs]; exact hi.gsOK, by rw [e_gs, hob]; exact hi.gsob, ?_, ?_, e_leader⟩
+  refine ⟨e_meter, hmok, e_sh, e_hb, e_prev, by rw [e_gs]; exact hi.gsOK, by rw [e_gs, hob]; exact hi.gsob, ?_, ?_, e_leader, e_cnt⟩
   · intro hu
     rw [hob, e_gs]
     exact hi.obgs (by rw [← hun]; exact hu)
@@ -1007,6 +1057,7 @@ theorem step_shards {K : Kind} {cfg : Cfg} {st : State} {m : Mon} (hi : Inv K cf
   · simp [Mon.next]
   · simp [Mon.next, leaderChange]; exact hi.hb
   · simp [Mon.next, leaderChange]; exact hi.leader
+  · exact cntInv_frame hi.cnt rfl (by first | (simp [Mon.next]; done) | (simp [Mon.next]; exact hi.cnt.clock)) (by simp [Mon.next, effective]) (by simp [Mon.next])
 
 theorem step_meter {K : Kind} {cfg : Cfg} {st : State} {m : Mon} (hi : Inv K cfg st m) (x : Meter)
     (hx : 0 < x.rateDen) : StepOK K cfg st m (.meter x) := by
@@ -1023,6 +1074,7 @@ theorem step_meter {K : Kind} {cfg : Cfg} {st : State} {m : Mon} (hi : Inv K cfg
   · simp [Mon.next]; exact hi.shards
   · simp [Mon.next, leaderChange]; exact hi.hb
   · simp [Mon.next, leaderChange]; exact hi.leader
+  · exact cntInv_frame hi.cnt rfl (by first | (simp [Mon.next]; done) | (simp [Mon.next]; exact hi.cnt.clock)) (by simp [Mon.next, effective]) (by simp [Mon.next])
 
 theorem step_hb {K : Kind} {cfg : Cfg} {st : State} {m : Mon} (hi : Inv K cfg st m) (ok : Bool) (now : Int)
     (other : Bool) : StepOK K cfg st m (.hb ok now other) := by
@@ -1041,9 +1093,10 @@ theorem step_hb {K : Kind} {cfg : Cfg} {st : State} {m : Mon} (hi : Inv K cfg st
     · simp [Mon.next]; exact hi.shards
     · simp [Mon.next, leaderChange]; exact hi.hb
     · simp [Mon.next, leaderChange]; exact hi.leader
+    · exact cntInv_frame hi.cnt rfl (by first | (simp [Mon.next]; done) | (simp [Mon.next]; exact hi.cnt.clock)) (by simp [Mon.next, effective]) (by simp [Mon.next])
   | false =>
-    refine ⟨{ st with hb := some (hbStep (st.hb.getD {}) ok now) }, rfl, ?_, rfl⟩
-    apply inv_of_frame hi (st' := { st with hb := some (hbStep (st.hb.getD {}) ok now) })
+    refine ⟨{ st with hb := some (hbStep (st.hb.getD {}) ok now), clock := now }, rfl, ?_, rfl⟩
+    apply inv_of_frame hi (st' := { st with hb := some (hbStep (st.hb.getD {}) ok now), clock := now })
     · rfl
     · simp [Mon.next]
     · simp [Mon.next, effective]
@@ -1055,6 +1108,7 @@ theorem step_hb {K : Kind} {cfg : Cfg} {st : State} {m : Mon} (hi : Inv K cfg st
     · simp [Mon.next]; exact hi.shards
     · simp [Mon.next]; exact hbStep_inv hi.hb ok now
     · simp [Mon.next, leaderChange]; exact hi.leader
+    · exact cntInv_frame hi.cnt rfl (by first | (simp [Mon.next]; done) | (simp [Mon.next]; exact hi.cnt.clock)) (by simp [Mon.next, effective]) (by simp [Mon.next])
 
 theorem observe_unavail_noremote {cfg : Cfg} {st : State} {c : Cache} (hc : st.cache = some c) (hr : c.remote = none) :
     (observe cfg st).unavail = false := by
@@ -1074,7 +1128,7 @@ theorem step_schema {K : Kind} {cfg : Cfg} {st : State} {m : Mon} (hi : Inv K cf
       · simp [step, hcache, VS_newLim hs]
       · have hun := observe_unavail_noremote (cfg := cfg)
           (st := { st with cache := some { loc := { config := s, fc := some (limOf s) }, remote := none } }) rfl rfl
-        refine ⟨?_, hi.meterOK, ?_, ?_, rfl, ?_, ?_, ?_, ?_, ?_⟩
+        refine ⟨?_, hi.meterOK, ?_, ?_, rfl, ?_, ?_, ?_, ?_, ?_, ?_⟩
         · simp [Mon.next]; exact hi.meter
         · simp [Mon.next]; exact hi.shards
         · simp [Mon.next, leaderChange]; exact hi.hb
@@ -1083,6 +1137,15 @@ theorem step_schema {K : Kind} {cfg : Cfg} {st : State} {m : Mon} (hi : Inv K cf
         · intro _; simp [Mon.next, effective, hun]
         · simp [CInv, Mon.next, hsch, hs, hc]
         · simp [Mon.next, leaderChange]; exact hi.leader
+        · refine ⟨by simp [Mon.next]; exact hi.cnt.clock, by simp [Mon.next, effective]; exact hi.cnt.contact0, ?_, ?_⟩
+          · intro x hx
+            have : x = { loc := { config := s, fc := some (limOf s) }, remote := none } := by simpa using hx.symm
+            subst this
+            simp [Mon.next, effective]; exact hi.cnt.contact0
+          · intro x hx he
+            have : x = { loc := { config := s, fc := some (limOf s) }, remote := none } := by simpa using hx.symm
+            subst this
+            simp at he
   | some c =>
     cases hsch : m.schema with
     | none => rw [hcache, hsch] at hc; exact hc.elim
@@ -1092,12 +1155,12 @@ theorem step_schema {K : Kind} {cfg : Cfg} {st : State} {m : Mon} (hi : Inv K cf
       have hls := localSync_VS h2 hs h1 h3
       by_cases hstop : (decide (s ≠ old) && !enableGlobal s) = true
       · -- the remote wrapper is stopped
-        refine ⟨{ st with cache := some { loc := { config := s, fc := some (limOf s) }, remote := none } }, ?_, ?_, rfl⟩
+        refine ⟨{ st with cache := some { c with loc := { config := s, fc := some (limOf s) }, remote := none } }, ?_, ?_, rfl⟩
         · simp only [step, hcache, hls, hstop]; rfl
         · have hun := observe_unavail_noremote (cfg := cfg)
-            (st := { st with cache := some { loc := { config := s, fc := some (limOf s) }, remote := none } }) rfl rfl
+            (st := { st with cache := some { c with loc := { config := s, fc := some (limOf s) }, remote := none } }) rfl rfl
           simp only [Bool.and_eq_true, decide_eq_true_eq, Bool.not_eq_true'] at hstop
-          refine ⟨?_, hi.meterOK, ?_, ?_, rfl, ?_, ?_, ?_, ?_, ?_⟩
+          refine ⟨?_, hi.meterOK, ?_, ?_, rfl, ?_, ?_, ?_, ?_, ?_, ?_⟩
           · simp [Mon.next]; exact hi.meter
           · simp [Mon.next]; exact hi.shards
           · simp [Mon.next, leaderChange]; exact hi.hb
@@ -1106,13 +1169,15 @@ theorem step_schema {K : Kind} {cfg : Cfg} {st : State} {m : Mon} (hi : Inv K cf
           · intro _; simp [Mon.next, effective, hun]
           · simp [CInv, Mon.next, hsch, hs, hstop.1, hstop.2, VS_guess hs, VS_guess h2]
           · simp [Mon.next, leaderChange]; exact hi.leader
+          · exact cntInv_cache hi.cnt hcache rfl rfl (by simp [Mon.next]; exact hi.cnt.clock) (by simp [Mon.next, effective])
+              (by simp [Mon.next])
       · -- nothing else changes
         have hstop' : (decide (s ≠ old) && !enableGlobal s) = false := by simpa using hstop
-        refine ⟨{ st with cache := some { loc := { config := s, fc := some (limOf s) }, remote := c.remote } }, ?_, ?_, rfl⟩
+        refine ⟨{ st with cache := some { c with loc := { config := s, fc := some (limOf s) }, remote := c.remote } }, ?_, ?_, rfl⟩
         · simp only [step, hcache, hls, hstop']; rfl
-        · have hg : gfcOf { st with cache := some { loc := { config := s, fc := some (limOf s) }, remote := c.remote } }
+        · have hg : gfcOf { st with cache := some { c with loc := { config := s, fc := some (limOf s) }, remote := c.remote } }
               = gfcOf st := by simp [gfcOf, hcache]
-          have hun : (observe cfg { st with cache := some { loc := { config := s, fc := some (limOf s) }, remote := c.remote } }).unavail
+          have hun : (observe cfg { st with cache := some { c with loc := { config := s, fc := some (limOf s) }, remote := c.remote } }).unavail
               = (observe cfg st).unavail := by rw [observe_unavail, observe_unavail, hg]
           have hob : (if (observe cfg st).unavail = true then m.ob.sup m.gs else m.gs) = m.ob := by
             cases hu : (observe cfg st).unavail with
@@ -1123,7 +1188,7 @@ theorem step_schema {K : Kind} {cfg : Cfg} {st : State} {m : Mon} (hi : Inv K cf
             rcases hstop' with h | h
             · simp [h]
             · simp [h]
-          refine ⟨?_, hi.meterOK, ?_, ?_, rfl, ?_, ?_, ?_, ?_, ?_⟩
+          refine ⟨?_, hi.meterOK, ?_, ?_, rfl, ?_, ?_, ?_, ?_, ?_, ?_⟩
           · simp [Mon.next]; exact hi.meter
           · simp [Mon.next]; exact hi.shards
           · simp [Mon.next, leaderChange]; exact hi.hb
@@ -1136,18 +1201,21 @@ theorem step_schema {K : Kind} {cfg : Cfg} {st : State} {m : Mon} (hi : Inv K cf
           · simp only [CInv, Mon.next, hsch, effective, Bool.false_eq_true, if_false, hun, hob, hsy]
             exact ⟨trivial, hs, trivial, h4, h5⟩
           · simp [Mon.next, leaderChange]; exact hi.leader
+          · exact cntInv_cache hi.cnt hcache rfl rfl (by simp [Mon.next]; exact hi.cnt.clock) (by simp [Mon.next, effective])
+              (by simp [Mon.next])
 
 /-- an effective sync of the remote limiter (reconcile of a global-count schema, or an answer of the schema's type) -/
 theorem inv_of_sync {K : Kind} {cfg : Cfg} {st : State} {m : Mon} {c : Cache} {s : Schema} (hi : Inv K cfg st m)
-    (hcache : st.cache = some c) (hsch : m.schema = some s) (i : Item) (hT : itemType i = K) :
+    (hcache : st.cache = some c) (hsch : m.schema = some s) (i : Item) (hT : itemType i = K) (cnt' : Counter) :
     ∃ r' g', remoteSync (c.remote.getD {}) c.loc.config i = .ok r' ∧ r'.fc = some g' ∧
       r'.appliedConfig = some (boundByGlobalLimit s i) ∧ GInv g' (boundByGlobalLimit s i) (obAfter m.ob (globalOf s) g'.unavail) ∧
       ∀ m' : Mon, m'.schema = some s → m'.synced = true → m'.gs = globalOf s →
-        m'.ob = (if (observe cfg { st with cache := some { c with remote := some r' } }).unavail
+        m'.ob = (if (observe cfg { st with cache := some { c with remote := some r', cnt := cnt' } }).unavail
                   then m.ob.sup (globalOf s) else globalOf s) →
-        m'.prev = observe cfg { st with cache := some { c with remote := some r' } } →
+        m'.prev = observe cfg { st with cache := some { c with remote := some r', cnt := cnt' } } →
         m'.meter = st.meter → m'.shards = st.shardCount → m'.hist = m.hist → m'.leader = st.leader →
-        Inv K cfg { st with cache := some { c with remote := some r' } } m' := by
+        CntInv { st with cache := some { c with remote := some r', cnt := cnt' } } m' →
+        Inv K cfg { st with cache := some { c with remote := some r', cnt := cnt' } } m' := by
   have hc := hi.cache
   unfold CInv at hc
   rw [hcache, hsch] at hc
@@ -1163,13 +1231,13 @@ theorem inv_of_sync {K : Kind} {cfg : Cfg} {st : State} {m : Mon} {c : Cache} {s
   have ea : ap0 = boundByGlobalLimit s i := by rw [e3] at q2; exact (Option.some.inj q2).symm
   subst eg ea
   refine ⟨r', g0, e1, e2, e3, q6, ?_⟩
-  intro m' m1 m2 m3 m4 m5 m6 m7 m8 m9
-  have hg : gfcOf { st with cache := some { c with remote := some r' } } = some g0 := by simp [gfcOf, e2]
-  have hun : (observe cfg { st with cache := some { c with remote := some r' } }).unavail = g0.unavail := by
+  intro m' m1 m2 m3 m4 m5 m6 m7 m8 m9 m10
+  have hg : gfcOf { st with cache := some { c with remote := some r', cnt := cnt' } } = some g0 := by simp [gfcOf, e2]
+  have hun : (observe cfg { st with cache := some { c with remote := some r', cnt := cnt' } }).unavail = g0.unavail := by
     rw [observe_unavail, hg]; rfl
   rw [hun] at m4
   have hob : m'.ob = obAfter m.ob (globalOf s) g0.unavail := by rw [m4]; rfl
-  refine ⟨m6, hi.meterOK, m7, by rw [m8]; exact hi.hb, m5, by rw [m3]; exact VS_globalOK h2, ?_, ?_, ?_, m9⟩
+  refine ⟨m6, hi.meterOK, m7, by rw [m8]; exact hi.hb, m5, by rw [m3]; exact VS_globalOK h2, ?_, ?_, ?_, m9, m10⟩
   · rw [m3, hob]
     cases g0.unavail with
     | true => exact BLe.sup_right _ _
@@ -1196,6 +1264,14 @@ theorem observe_wkind (cfg : Cfg) (st : State) : (observe cfg st).wkind = ((gfcO
   | none => rfl
   | some g => cases g <;> rfl
 
+/-- operations that touch neither the clock nor the counter's event flag -/
+def quietOp : Op → Bool
+  | .tick _ _ => false
+  | .hb _ _ false => false
+  | .sync _ _ _ _ => false
+  | .event => false
+  | _ => true
+
 /-- an operation that changes nothing at all -/
 theorem step_noop {K : Kind} {cfg : Cfg} {st : State} {m : Mon} (hi : Inv K cfg st m) (op : Op)
     (hstep : step st op = .ok st) (heff : effective m op = false)
@@ -1204,7 +1280,43 @@ theorem step_noop {K : Kind} {cfg : Cfg} {st : State} {m : Mon} (hi : Inv K cfg 
       (m.next op (observe cfg st)).hist = m.hist ∧
       (m.next op (observe cfg st)).synced = (m.synced || effective m op) ∧
       (m.next op (observe cfg st)).leader = m.leader)
-    (hj : judgeTrans m op (observe cfg st) = []) : StepOK K cfg st m op := by
+    (hj : judgeTrans m op (observe cfg st) = [])
+    (hq : quietOp op = true := by rfl) : StepOK K cfg st m op := by
+  have hcnt : CntInv st (m.next op (observe cfg st)) := by
+    apply cntInv_frame hi.cnt rfl
+    · cases op with
+      | hb ok now other => cases other <;> simp [quietOp] at hq; exact hi.cnt.clock
+      | sync _ _ _ _ => simp [quietOp] at hq
+      | tick _ _ => simp [quietOp] at hq
+      | event => simp [quietOp] at hq
+      | schema _ => exact hi.cnt.clock
+      | shards _ => exact hi.cnt.clock
+      | reconcileCount => exact hi.cnt.clock
+      | answer _ _ => exact hi.cnt.clock
+      | meter _ => exact hi.cnt.clock
+      | setLimit _ => exact hi.cnt.clock
+    · cases op with
+      | tick _ _ => simp [quietOp] at hq
+      | hb _ _ _ => simp [Mon.next, heff]
+      | sync _ _ _ _ => simp [Mon.next, heff]
+      | event => simp [Mon.next, heff]
+      | schema _ => simp [Mon.next, heff]
+      | shards _ => simp [Mon.next, heff]
+      | reconcileCount => simp [Mon.next, heff]
+      | answer _ _ => simp [Mon.next, heff]
+      | meter _ => simp [Mon.next, heff]
+      | setLimit _ => simp [Mon.next, heff]
+    · cases op with
+      | tick _ _ => simp [quietOp] at hq
+      | event => simp [quietOp] at hq
+      | hb _ _ _ => rfl
+      | sync _ _ _ _ => rfl
+      | schema _ => rfl
+      | shards _ => rfl
+      | reconcileCount => rfl
+      | answer _ _ => rfl
+      | meter _ => rfl
+      | setLimit _ => rfl
   refine ⟨st, hstep, ?_, hj⟩
   apply inv_of_frame hi (st' := st)
   · rfl
@@ -1218,6 +1330,7 @@ theorem step_noop {K : Kind} {cfg : Cfg} {st : State} {m : Mon} (hi : Inv K cfg 
   · rw [e_rest.2.1]; exact hi.shards
   · rw [e_rest.2.2.1]; exact hi.hb
   · rw [e_rest.2.2.2.2]; exact hi.leader
+  · exact hcnt
 
 theorem VS_globalItem {K : Kind} {s : Schema} (h : VS K s) :
     itemType { strategy := s.strategy, mi := s.gmi, tb := s.gtb } = K := by
@@ -1244,13 +1357,16 @@ theorem step_reconcile {K : Kind} {cfg : Cfg} {st : State} {m : Mon} (hi : Inv K
       · by_cases hen : enableGlobal s = true
         · -- effective
           have heff : effective m .reconcileCount = true := by simp [effective, hsch, hcount, hen]
+          obtain ⟨cnt', hcnt'⟩ : ∃ x : Counter, x = (if remoteRecreates (c.remote.getD {}) s
+              { strategy := Strategy.count, mi := s.gmi, tb := s.gtb }
+              then { event := false, lastSync := unixS st.clock } else c.cnt) := ⟨_, rfl⟩
           obtain ⟨r', g', e1, e2, e3, e4, e5⟩ := inv_of_sync hi hcache hsch
-            { strategy := s.strategy, mi := s.gmi, tb := s.gtb } (VS_globalItem h2)
-          refine ⟨{ st with cache := some { c with remote := some r' } }, ?_, ?_, rfl⟩
+            { strategy := s.strategy, mi := s.gmi, tb := s.gtb } (VS_globalItem h2) cnt'
+          refine ⟨{ st with cache := some { c with remote := some r', cnt := cnt' } }, ?_, ?_, rfl⟩
           · simp only [step, hcache, h1, hcount, ne_eq, not_true_eq_false, if_false, hen, Bool.not_true,
               Bool.false_eq_true, cacheRemoteSync, bind, Except.bind]
             rw [h1, hcount] at e1
-            rw [e1]; rfl
+            rw [e1, hcnt']; rfl
           · apply e5
             · simp [Mon.next, hsch]
             · simp [Mon.next, heff]
@@ -1261,6 +1377,8 @@ theorem step_reconcile {K : Kind} {cfg : Cfg} {st : State} {m : Mon} (hi : Inv K
             · simp [Mon.next]; exact hi.shards
             · simp [Mon.next, leaderChange]
             · simp [Mon.next, leaderChange]; exact hi.leader
+            · exact cntInv_sync _ hi.cnt hcache rfl hcnt' (by simp [Mon.next]; exact hi.cnt.clock)
+                (by simp [Mon.next, heff]) (by simp [Mon.next])
         · have hen' : enableGlobal s = false := by simpa using hen
           exact step_noop hi _ (by simp [step, hcache, h1, hcount, hen']) (by simp [effective, hsch, hen'])
             rfl ⟨rfl, rfl, rfl, rfl, rfl⟩ rfl
@@ -1293,13 +1411,16 @@ theorem step_answer {K : Kind} {cfg : Cfg} {st : State} {m : Mon} (hi : Inv K cf
       by_cases hen : enableGlobal s = true
       · by_cases hty : itemType item = guessType s
         · have heff : effective m (.answer true item) = true := by simp [effective, hsch, hen, hty]
-          obtain ⟨r', g', e1, e2, e3, e4, e5⟩ := inv_of_sync hi hcache hsch item (by rw [hty]; exact VS_guess h2)
-          have hg : gfcOf { st with cache := some { c with remote := some r' } } = some g' := by simp [gfcOf, e2]
-          refine ⟨{ st with cache := some { c with remote := some r' } }, ?_, ?_, ?_⟩
+          obtain ⟨cnt', hcnt'⟩ : ∃ x : Counter, x = (if remoteRecreates (c.remote.getD {}) s item
+              then { event := false, lastSync := unixS st.clock } else c.cnt) := ⟨_, rfl⟩
+          obtain ⟨r', g', e1, e2, e3, e4, e5⟩ := inv_of_sync hi hcache hsch item (by rw [hty]; exact VS_guess h2) cnt'
+          have hg : gfcOf { st with cache := some { c with remote := some r', cnt := cnt' } } = some g' := by
+            simp [gfcOf, e2]
+          refine ⟨{ st with cache := some { c with remote := some r', cnt := cnt' } }, ?_, ?_, ?_⟩
           · simp only [step, hcache, h1, hen, Bool.not_true, Bool.false_eq_true, if_false, hty, ne_eq,
               not_true_eq_false, cacheRemoteSync, bind, Except.bind]
             rw [h1] at e1
-            rw [e1]; rfl
+            rw [e1, hcnt']; rfl
           · apply e5
             · simp [Mon.next, hsch]
             · simp [Mon.next, heff]
@@ -1310,6 +1431,8 @@ theorem step_answer {K : Kind} {cfg : Cfg} {st : State} {m : Mon} (hi : Inv K cf
             · simp [Mon.next]; exact hi.shards
             · simp [Mon.next, leaderChange]
             · simp [Mon.next, leaderChange]; exact hi.leader
+            · exact cntInv_sync _ hi.cnt hcache rfl hcnt' (by simp [Mon.next]; exact hi.cnt.clock)
+                (by simp [Mon.next, heff]) (by simp [Mon.next])
           · simp only [judgeTrans, heff, Bool.true_and, hsch, observe_wkind, observe_rlim, hg, Option.map_some,
               Option.getD_some]
             cases g' with
@@ -1359,7 +1482,9 @@ theorem inv_of_setLimit {K : Kind} {cfg : Cfg} {st : State} {m : Mon} {c : Cache
       (observe cfg { st with cache := some { c with remote := some { rm with fc := some g' } }, lastRet := b })).ob
       = obAfter m.ob m.gs g'.unavail := by
     simp only [Mon.next, effective, Bool.false_eq_true, if_false, hun]; rfl
-  refine ⟨?_, hi.meterOK, ?_, ?_, rfl, ?_, ?_, ?_, ?_, (by simp [Mon.next, leaderChange]; exact hi.leader)⟩
+  refine ⟨?_, hi.meterOK, ?_, ?_, rfl, ?_, ?_, ?_, ?_, (by simp [Mon.next, leaderChange]; exact hi.leader),
+    cntInv_cache hi.cnt hcache rfl rfl (by simp [Mon.next]; exact hi.cnt.clock) (by simp [Mon.next, effective])
+      (by simp [Mon.next])⟩
   · simp [Mon.next]; exact hi.meter
   · simp [Mon.next]; exact hi.shards
   · simp [Mon.next, leaderChange]; exact hi.hb
@@ -1457,9 +1582,118 @@ theorem step_setLimit {K : Kind} {cfg : Cfg} {st : State} {m : Mon} (hi : Inv K 
 theorem step_sync {K : Kind} {cfg : Cfg} {st : State} {m : Mon} (hi : Inv K cfg st m) (fail : Bool) (n : Nat)
     (leader : Option Nat) (now : Int) : StepOK K cfg st m (.sync fail n leader now) := by
   have hl := hi.leader
+  -- all four outcomes leave the cache alone and set the clock
+  have frame : ∀ st' : State, step st (.sync fail n leader now) = .ok st' → st'.cache = st.cache →
+      st'.meter = st.meter → st'.clock = now →
+      (m.next (.sync fail n leader now) (observe cfg st')).shards = st'.shardCount →
+      HBInv st'.hb (m.next (.sync fail n leader now) (observe cfg st')).hist →
+      (m.next (.sync fail n leader now) (observe cfg st')).leader = st'.leader →
+      StepOK K cfg st m (.sync fail n leader now) := by
+    intro st' hstep hc hm hck hsh hhb hld
+    refine ⟨st', hstep, ?_, rfl⟩
+    apply inv_of_frame hi (st' := st')
+    · exact hc
+    · simp [Mon.next]
+    · simp [Mon.next, effective]
+    · simp [Mon.next, effective]
+    · simp [Mon.next, effective]
+    · rfl
+    · simp [Mon.next]; rw [hm]; exact hi.meter
+    · rw [hm]; exact hi.meterOK
+    · exact hsh
+    · exact hhb
+    · exact hld
+    · exact cntInv_frame hi.cnt hc (by simp [Mon.next]; exact hck.symm) (by simp [Mon.next, effective])
+        (by simp [Mon.next])
   cases fail with
   | true =>
-    refine ⟨st, rfl, ?_, rfl⟩
+    apply frame { st with clock := now } rfl rfl rfl rfl
+    · simp [Mon.next]; exact hi.shards
+    · simp [Mon.next, leaderChange]; exact hi.hb
+    · simp [Mon.next, leaderChange]; exact hi.leader
+  | false =>
+    cases leader with
+    | none =>
+      apply frame { st with shardCount := n, clock := now } rfl rfl rfl rfl
+      · simp [Mon.next]
+      · simp [Mon.next, leaderChange]; exact hi.hb
+      · simp [Mon.next, leaderChange]; exact hi.leader
+    | some l =>
+      by_cases hne : st.leader = l
+      · apply frame { st with shardCount := n, clock := now } (by simp [step, hne]) rfl rfl rfl
+        · simp [Mon.next]
+        · simp [Mon.next, leaderChange, hl, hne]; exact hi.hb
+        · simp [Mon.next, leaderChange, hl, hne]
+      · apply frame { st with shardCount := n, leader := l, hb := some (hbStep (st.hb.getD {}) true now), clock := now }
+          (by simp [step, hne]) rfl rfl rfl
+        · simp [Mon.next]
+        · simp [Mon.next, leaderChange, hl, hne]; exact hbStep_inv hi.hb true now
+        · simp [Mon.next, leaderChange, hl, hne]
+
+@[simp] theorem tickQuiet_clock (st : State) (c : Cache) (now : Int) : (tickQuiet st c now).clock = now := rfl
+@[simp] theorem tickQuiet_lastReq (st : State) (c : Cache) (now : Int) : (tickQuiet st c now).lastReq = none := rfl
+@[simp] theorem tickQuiet_cache (st : State) (c : Cache) (now : Int) :
+    (tickQuiet st c now).cache = some { c with cnt := { c.cnt with event := false } } := rfl
+@[simp] theorem tickQuiet_meter (st : State) (c : Cache) (now : Int) : (tickQuiet st c now).meter = st.meter := rfl
+@[simp] theorem tickQuiet_shards (st : State) (c : Cache) (now : Int) : (tickQuiet st c now).shardCount = st.shardCount := rfl
+@[simp] theorem tickQuiet_hb (st : State) (c : Cache) (now : Int) : (tickQuiet st c now).hb = st.hb := rfl
+@[simp] theorem tickQuiet_leader (st : State) (c : Cache) (now : Int) : (tickQuiet st c now).leader = st.leader := rfl
+@[simp] theorem tickSent_clock (st : State) (c : Cache) (rm : Remote) (g : GFC) (k : Counter) (now hits : Int) :
+    (tickSent st c rm g k now hits).clock = now := rfl
+@[simp] theorem tickSent_lastReq (st : State) (c : Cache) (rm : Remote) (g : GFC) (k : Counter) (now hits : Int) :
+    (tickSent st c rm g k now hits).lastReq = some hits := rfl
+@[simp] theorem tickSent_cache (st : State) (c : Cache) (rm : Remote) (g : GFC) (k : Counter) (now hits : Int) :
+    (tickSent st c rm g k now hits).cache = some { c with remote := some { rm with fc := some g }, cnt := k } := rfl
+@[simp] theorem tickSent_meter (st : State) (c : Cache) (rm : Remote) (g : GFC) (k : Counter) (now hits : Int) :
+    (tickSent st c rm g k now hits).meter = st.meter := rfl
+@[simp] theorem tickSent_shards (st : State) (c : Cache) (rm : Remote) (g : GFC) (k : Counter) (now hits : Int) :
+    (tickSent st c rm g k now hits).shardCount = st.shardCount := rfl
+@[simp] theorem tickSent_hb (st : State) (c : Cache) (rm : Remote) (g : GFC) (k : Counter) (now hits : Int) :
+    (tickSent st c rm g k now hits).hb = st.hb := rfl
+@[simp] theorem tickSent_leader (st : State) (c : Cache) (rm : Remote) (g : GFC) (k : Counter) (now hits : Int) :
+    (tickSent st c rm g k now hits).leader = st.leader := rfl
+
+theorem observe_req (cfg : Cfg) (st : State) : (observe cfg st).req = st.lastReq := by
+  simp only [observe]
+  cases h : (st.cache.bind fun c => c.remote.bind (·.fc)) with
+  | none => rfl
+  | some g => cases g <;> rfl
+
+/-- the cache changes in its counter only -/
+theorem inv_of_cnt {K : Kind} {cfg : Cfg} {st st' : State} {m m' : Mon} {c : Cache} {cnt' : Counter}
+    (hi : Inv K cfg st m) (hcache : st.cache = some c) (hc : st'.cache = some { c with cnt := cnt' })
+    (e_schema : m'.schema = m.schema) (e_synced : m'.synced = m.synced)
+    (e_gs : m'.gs = m.gs) (e_ob : m'.ob = if (observe cfg st').unavail then m.ob.sup m.gs else m.gs)
+    (e_prev : m'.prev = observe cfg st') (e_meter : m'.meter = st'.meter) (hmok : 0 < st'.meter.rateDen)
+    (e_sh : m'.shards = st'.shardCount) (e_hb : HBInv st'.hb m'.hist) (e_leader : m'.leader = st'.leader)
+    (e_cnt : CntInv st' m') : Inv K cfg st' m' := by
+  have hg : gfcOf st' = gfcOf st := by simp [gfcOf, hc, hcache]
+  have hun : (observe cfg st').unavail = (observe cfg st).unavail := by
+    rw [observe_unavail, observe_unavail, hg]
+  have hob : m'.ob = m.ob := by
+    rw [e_ob, hun]
+    cases hu : (observe cfg st).unavail with
+    | true => simp only [if_true]; exact sup_eq_left hi.gsob
+    | false => simp only [Bool.false_eq_true, if_false]; exact (hi.obgs hu).symm
+  refine ⟨e_meter, hmok, e_sh, e_hb, e_prev, by rw [e_gs]; exact hi.gsOK, by rw [e_gs, hob]; exact hi.gsob, ?_, ?_,
+    e_leader, e_cnt⟩
+  · intro hu
+    rw [hob, e_gs]
+    exact hi.obgs (by rw [← hun]; exact hu)
+  · have h := hi.cache
+    rw [hcache] at h
+    rw [hc]
+    unfold CInv at *
+    rw [e_schema, e_synced, e_gs, hob]
+    cases hs : m.schema with
+    | none => rw [hs] at h; exact h.elim
+    | some s => rw [hs] at h; exact h
+
+theorem step_event {K : Kind} {cfg : Cfg} {st : State} {m : Mon} (hi : Inv K cfg st m) : StepOK K cfg st m .event := by
+  -- either nothing changes, or the counter's event flag is raised
+  have quiet : step st .event = .ok st → StepOK K cfg st m .event := by
+    intro hs
+    refine ⟨st, hs, ?_, rfl⟩
     apply inv_of_frame hi (st' := st)
     · rfl
     · simp [Mon.next]
@@ -1472,11 +1706,114 @@ theorem step_sync {K : Kind} {cfg : Cfg} {st : State} {m : Mon} (hi : Inv K cfg 
     · simp [Mon.next]; exact hi.shards
     · simp [Mon.next, leaderChange]; exact hi.hb
     · simp [Mon.next, leaderChange]; exact hi.leader
-  | false =>
-    cases leader with
-    | none =>
-      refine ⟨{ st with shardCount := n }, rfl, ?_, rfl⟩
-      apply inv_of_frame hi (st' := { st with shardCount := n })
+    · refine ⟨by simp [Mon.next]; exact hi.cnt.clock, by simp [Mon.next, effective]; exact hi.cnt.contact0, ?_, ?_⟩
+      · intro c hc; simp [Mon.next, effective]; exact hi.cnt.contact c hc
+      · intro c hc _; simp [Mon.next]
+  have raised : ∀ c, st.cache = some c →
+      step st .event = .ok { st with cache := some { c with cnt := { c.cnt with event := true } } } →
+      StepOK K cfg st m .event := by
+    intro c hcache hs
+    refine ⟨_, hs, ?_, rfl⟩
+    apply inv_of_cnt hi hcache rfl
+    · simp [Mon.next]
+    · simp [Mon.next, effective]
+    · simp [Mon.next, effective]
+    · simp [Mon.next, effective]
+    · rfl
+    · simp [Mon.next]; exact hi.meter
+    · exact hi.meterOK
+    · simp [Mon.next]; exact hi.shards
+    · simp [Mon.next, leaderChange]; exact hi.hb
+    · simp [Mon.next, leaderChange]; exact hi.leader
+    · refine ⟨by simp [Mon.next]; exact hi.cnt.clock, by simp [Mon.next, effective]; exact hi.cnt.contact0, ?_, ?_⟩
+      · intro x hx
+        have : x = { c with cnt := { c.cnt with event := true } } := by simpa using hx.symm
+        subst this
+        simp [Mon.next, effective]; exact hi.cnt.contact c hcache
+      · intro x hx _; simp [Mon.next]
+  cases hcache : st.cache with
+  | none => exact quiet (by simp [step, hcache])
+  | some c =>
+    cases hrm : c.remote with
+    | none => exact quiet (by simp [step, hcache, hrm])
+    | some rm =>
+      cases hfc : rm.fc with
+      | none => exact quiet (by simp [step, hcache, hrm, hfc])
+      | some g =>
+        cases g with
+        | empty l => exact quiet (by simp [step, hcache, hrm, hfc])
+        | miw w => exact raised c hcache (by simp [step, hcache, hrm, hfc])
+        | tbw w => exact raised c hcache (by simp [step, hcache, hrm, hfc])
+
+/-- the wrapper is replaced by one that satisfies the wrapper invariant for the same applied item (general form) -/
+theorem inv_of_wrapper {K : Kind} {cfg : Cfg} {st st' : State} {m m' : Mon} {c : Cache} {s : Schema} {rm : Remote}
+    {i ap : Item} {g' : GFC} {cnt' : Counter} (hi : Inv K cfg st m) (hcache : st.cache = some c)
+    (hsch : m.schema = some s) (hrm : c.remote = some rm) (q1 : rm.remoteConfig = some i)
+    (q2 : rm.appliedConfig = some ap) (q4 : itemType ap = K) (q5 : ItemLe ap m.gs)
+    (hg : GInv g' ap (obAfter m.ob m.gs g'.unavail)) (hk : g'.inner.kind = K)
+    (hst : st'.cache = some { c with remote := some { rm with fc := some g' }, cnt := cnt' })
+    (s1 : st'.meter = st.meter) (s2 : st'.shardCount = st.shardCount) (s3 : st'.hb = st.hb) (s4 : st'.leader = st.leader)
+    (m1 : m'.schema = some s) (m2 : m'.synced = m.synced) (m3 : m'.gs = m.gs)
+    (m4 : m'.ob = if (observe cfg st').unavail then m.ob.sup m.gs else m.gs) (m5 : m'.prev = observe cfg st')
+    (m6 : m'.meter = m.meter) (m7 : m'.shards = m.shards) (m8 : m'.hist = m.hist) (m9 : m'.leader = m.leader)
+    (m10 : CntInv st' m') : Inv K cfg st' m' := by
+  have hc := hi.cache
+  unfold CInv at hc
+  rw [hcache, hsch] at hc
+  obtain ⟨h1, h2, h3, h4, h5⟩ := hc
+  have hgf : gfcOf st' = some g' := by simp [gfcOf, hst]
+  have hun : (observe cfg st').unavail = g'.unavail := by rw [observe_unavail, hgf]; rfl
+  have hob : m'.ob = obAfter m.ob m.gs g'.unavail := by rw [m4, hun]; rfl
+  refine ⟨by rw [m6, s1]; exact hi.meter, by rw [s1]; exact hi.meterOK, by rw [m7, s2]; exact hi.shards,
+    by rw [m8, s3]; exact hi.hb, m5, by rw [m3]; exact hi.gsOK, ?_, ?_, ?_, by rw [m9, s4]; exact hi.leader, m10⟩
+  · rw [hob, m3]
+    cases g'.unavail with
+    | true => exact BLe.sup_right _ _
+    | false => exact BLe.refl _
+  · intro hu
+    rw [hun] at hu
+    rw [hob, hu, m3]; rfl
+  · rw [hst]
+    simp only [CInv, m1]
+    refine ⟨h1, h2, h3, ?_, ?_⟩
+    · rw [m2, h4, hrm]; rfl
+    · intro r0 hr0
+      have : r0 = { rm with fc := some g' } := by simpa using hr0.symm
+      subst this
+      rw [hob, m3]
+      exact ⟨i, ap, g', q1, q2, rfl, q4, q5, hg, hk⟩
+
+theorem GInv_addAcquiring {g : GFC} {ap : Item} {ob : Bound} (h : GInv g ap ob) (hits : Int) :
+    GInv (g.addAcquiring hits) ap ob ∧ (g.addAcquiring hits).unavail = g.unavail ∧
+      (g.addAcquiring hits).inner = g.inner := by
+  cases g with
+  | empty l => exact ⟨h, rfl, rfl⟩
+  | miw w => exact ⟨h, rfl, rfl⟩
+  | tbw w => exact ⟨h, rfl, rfl⟩
+
+/-- when a resync is due (by the monitor's upper bound of `lastSyncTime`) and no event can be pending, a count wrapper's
+    counter sends a request -/
+theorem requestOf_due {g : GFC} {cnt : Counter} {mt : Meter} {now contact : Int} (hle : cnt.lastSync ≤ contact)
+    (hdue : unixS now - contact > 2) (hnone : requestOf g cnt mt now = none) :
+    (∃ l, g = .empty l) ∨ ((∃ w, g = .tbw w) ∧ cnt.event = true) := by
+  have hd : unixS now - cnt.lastSync > 2 := by omega
+  cases g with
+  | empty l => exact Or.inl ⟨l, rfl⟩
+  | miw w => simp [requestOf, hd] at hnone
+  | tbw w =>
+    refine Or.inr ⟨⟨w, rfl⟩, ?_⟩
+    cases he : cnt.event with
+    | true => rfl
+    | false => simp [requestOf, hd, he] at hnone
+
+theorem step_tick {K : Kind} {cfg : Cfg} {st : State} {m : Mon} (hi : Inv K cfg st m) (now : Int)
+    (ans : Option TickAnswer) : StepOK K cfg st m (.tick now ans) := by
+  have hprev := hi.prev
+  cases hcache : st.cache with
+  | none =>
+    have hg0 : gfcOf st = none := by simp [gfcOf, hcache]
+    refine ⟨{ st with clock := now, lastReq := none }, by simp [step, hcache], ?_, ?_⟩
+    · apply inv_of_frame hi (st' := { st with clock := now, lastReq := none })
       · rfl
       · simp [Mon.next]
       · simp [Mon.next, effective]
@@ -1485,14 +1822,27 @@ theorem step_sync {K : Kind} {cfg : Cfg} {st : State} {m : Mon} (hi : Inv K cfg 
       · rfl
       · simp [Mon.next]; exact hi.meter
       · exact hi.meterOK
-      · simp [Mon.next]
+      · simp [Mon.next]; exact hi.shards
       · simp [Mon.next, leaderChange]; exact hi.hb
       · simp [Mon.next, leaderChange]; exact hi.leader
-    | some l =>
-      by_cases hne : st.leader = l
-      · refine ⟨{ st with shardCount := n }, by simp [step, hne], ?_, rfl⟩
-        apply inv_of_frame hi (st' := { st with shardCount := n })
-        · rfl
+      · refine ⟨by simp [Mon.next], ?_, fun c hc => by simp [hcache] at hc, fun c hc => by simp [hcache] at hc⟩
+        cases ans <;> simp [Mon.next, effective, observe_req] <;> exact hi.cnt.contact0
+    · simp [judgeTrans, judgeTick, hprev, observe_wkind0 hg0, observe_req]
+  | some c =>
+    have hc := hi.cache
+    unfold CInv at hc
+    cases hsch : m.schema with
+    | none => rw [hcache, hsch] at hc; exact hc.elim
+    | some s =>
+    rw [hcache, hsch] at hc
+    obtain ⟨h1, h2, h3, h4, h5⟩ := hc
+    -- the outcomes without a request: only the event flag is cleared
+    have quiet : step st (.tick now ans) = .ok (tickQuiet st c now) →
+        (((observe cfg st).wkind = 2 ∨ ((observe cfg st).wkind = 3 ∧ m.mayEvent = false)) →
+          ¬ unixS now - m.contact > 2) → StepOK K cfg st m (.tick now ans) := by
+      intro hs hA
+      refine ⟨_, hs, ?_, ?_⟩
+      · apply inv_of_cnt hi hcache rfl
         · simp [Mon.next]
         · simp [Mon.next, effective]
         · simp [Mon.next, effective]
@@ -1500,24 +1850,157 @@ theorem step_sync {K : Kind} {cfg : Cfg} {st : State} {m : Mon} (hi : Inv K cfg 
         · rfl
         · simp [Mon.next]; exact hi.meter
         · exact hi.meterOK
-        · simp [Mon.next]
-        · simp [Mon.next, leaderChange, hl, hne]; exact hi.hb
-        · simp [Mon.next, leaderChange, hl, hne]
-      · refine ⟨{ st with shardCount := n, leader := l, hb := some (hbStep (st.hb.getD {}) true now) },
-          by simp [step, hne], ?_, rfl⟩
-        apply inv_of_frame hi
-          (st' := { st with shardCount := n, leader := l, hb := some (hbStep (st.hb.getD {}) true now) })
-        · rfl
-        · simp [Mon.next]
-        · simp [Mon.next, effective]
-        · simp [Mon.next, effective]
-        · simp [Mon.next, effective]
-        · rfl
-        · simp [Mon.next]; exact hi.meter
-        · exact hi.meterOK
-        · simp [Mon.next]
-        · simp [Mon.next, leaderChange, hl, hne]; exact hbStep_inv hi.hb true now
-        · simp [Mon.next, leaderChange, hl, hne]
+        · simp [Mon.next]; exact hi.shards
+        · simp [Mon.next, leaderChange]; exact hi.hb
+        · simp [Mon.next, leaderChange]; exact hi.leader
+        · refine ⟨by simp [Mon.next], ?_, ?_, ?_⟩
+          · cases ans <;> simp [Mon.next, effective, observe_req] <;> exact hi.cnt.contact0
+          · intro x hx
+            have : x = { c with cnt := { c.cnt with event := false } } := by simpa [tickQuiet] using hx.symm
+            subst this
+            cases ans <;> simp [Mon.next, effective, observe_req] <;> exact hi.cnt.contact c hcache
+          · intro x hx he
+            have : x = { c with cnt := { c.cnt with event := false } } := by simpa [tickQuiet] using hx.symm
+            subst this
+            simp at he
+      · simp only [judgeTrans, judgeTick, hprev, observe_req]
+        have : ¬ (((observe cfg st).wkind = 2 ∨ ((observe cfg st).wkind = 3 ∧ m.mayEvent = false)) ∧
+            unixS now - m.contact > 2 ∧ (tickQuiet st c now).lastReq.isNone = true) := fun h => hA h.1 h.2.1
+        rw [if_neg this]
+        cases ans <;> simp
+    cases hrm : c.remote with
+    | none =>
+      have hg0 : gfcOf st = none := by simp [gfcOf, hcache, hrm]
+      exact quiet (by simp [step, hcache, hrm]) (by rw [observe_wkind0 hg0]; simp)
+    | some rm =>
+      obtain ⟨i, ap, g, q1, q2, q3, q4, q5, q6, q7⟩ := h5 rm hrm
+      have hgf : gfcOf st = some g := by simp [gfcOf, hcache, hrm, q3]
+      have hwk : (observe cfg st).wkind = GFC.wkind g := by rw [observe_wkind, hgf]; rfl
+      cases hreq : requestOf g c.cnt st.meter now with
+      | none =>
+        refine quiet (by simp [step, hcache, hrm, q3, hreq]) ?_
+        intro hk hdue
+        rcases requestOf_due (hi.cnt.contact c hcache) hdue hreq with ⟨l, rfl⟩ | ⟨⟨w, rfl⟩, he⟩
+        · rw [hwk] at hk; simp [GFC.wkind] at hk
+        · rw [hwk] at hk
+          have := hi.cnt.may c hcache he
+          simp [GFC.wkind, this] at hk
+      | some hits =>
+        obtain ⟨a1, a2, a3⟩ := GInv_addAcquiring q6 hits
+        cases ans with
+        | none =>
+          refine ⟨tickSent st c rm (g.addAcquiring hits) { c.cnt with event := false } now hits,
+            by simp [step, hcache, hrm, q3, hreq], ?_, ?_⟩
+          · apply inv_of_wrapper hi hcache hsch hrm q1 q2 q4 q5 (g' := g.addAcquiring hits)
+              (cnt' := { c.cnt with event := false })
+            · exact GInv_obAfter _ a1
+            · rw [a3]; exact q7
+            · rfl
+            · rfl
+            · rfl
+            · rfl
+            · rfl
+            · simp [Mon.next, hsch]
+            · simp [Mon.next, effective]
+            · simp [Mon.next, effective]
+            · simp [Mon.next, effective]
+            · rfl
+            · simp [Mon.next]
+            · simp [Mon.next]
+            · simp [Mon.next, leaderChange]
+            · simp [Mon.next, leaderChange]
+            · refine ⟨by simp [Mon.next], by simp [Mon.next, effective]; exact hi.cnt.contact0, ?_, ?_⟩
+              · intro x hx
+                have : x = { c with remote := some { rm with fc := some (g.addAcquiring hits) }, cnt := { c.cnt with event := false } } := by
+                  simpa [tickSent] using hx.symm
+                subst this
+                simp [Mon.next, effective]; exact hi.cnt.contact c hcache
+              · intro x hx he
+                have : x = { c with remote := some { rm with fc := some (g.addAcquiring hits) }, cnt := { c.cnt with event := false } } := by
+                  simpa [tickSent] using hx.symm
+                subst this
+                simp at he
+          · simp [judgeTrans, judgeTick, observe_req]
+        | some a =>
+          -- the answer goes through SetLimit
+          have fin : ∀ (g' : GFC) (b : Bool),
+              gfcSetLimit (g.addAcquiring hits) c.loc.config st.meter (tickReply a hits now) = .ok (g', b) →
+              GInv g' ap (obAfter m.ob m.gs g'.unavail) → g'.inner.kind = K →
+              (∀ o : Obs, o.rlim = some g'.inner → o.unavail = g'.unavail → o.req = some hits →
+                judgeSetLimit m (tickReply a hits now) o = []) →
+              StepOK K cfg st m (.tick now (some a)) := by
+            intro g' b hset hg' hk' hj
+            have hgf' : gfcOf (tickSent st c rm g' { event := false, lastSync := unixS now } now hits) = some g' := by
+              simp [gfcOf, tickSent]
+            refine ⟨tickSent st c rm g' { event := false, lastSync := unixS now } now hits,
+              by simp [step, hcache, hrm, q3, hreq, hset], ?_, ?_⟩
+            · apply inv_of_wrapper hi hcache hsch hrm q1 q2 q4 q5 (g' := g')
+                (cnt' := { event := false, lastSync := unixS now }) hg' hk'
+              · rfl
+              · rfl
+              · rfl
+              · rfl
+              · rfl
+              · simp [Mon.next, hsch]
+              · simp [Mon.next, effective]
+              · simp [Mon.next, effective]
+              · simp [Mon.next, effective]
+              · rfl
+              · simp [Mon.next]
+              · simp [Mon.next]
+              · simp [Mon.next, leaderChange]
+              · simp [Mon.next, leaderChange]
+              · have h0 := hi.cnt.contact0
+                refine ⟨by simp [Mon.next], ?_, ?_, ?_⟩
+                · simp [Mon.next, effective, observe_req]; split <;> omega
+                · intro x hx
+                  have : x = { c with remote := some { rm with fc := some g' }, cnt := { event := false, lastSync := unixS now } } := by
+                    simpa [tickSent] using hx.symm
+                  subst this
+                  simp [Mon.next, effective, observe_req]; split <;> omega
+                · intro x hx he
+                  have : x = { c with remote := some { rm with fc := some g' }, cnt := { event := false, lastSync := unixS now } } := by
+                    simpa [tickSent] using hx.symm
+                  subst this
+                  simp at he
+            · simp only [judgeTrans, judgeTick, observe_req, tickSent_lastReq, Option.isNone_some, Bool.false_eq_true,
+                and_false, if_false, List.nil_append]
+              apply hj
+              · rw [observe_rlim, hgf']; rfl
+              · rw [observe_unavail, hgf']; rfl
+              · rw [observe_req]; rfl
+          cases g with
+          | empty l => simp [requestOf] at hreq
+          | miw w =>
+            have hKm : K = .mi := by
+              obtain ⟨A, sz, b1, b2, b3, b4, b5, _⟩ := q6
+              rw [← q7]; simp [GFC.inner, b5, Lim.kind]
+            subst hKm
+            obtain ⟨w', e1, e2, e3, e4⟩ := miw_setLimit_inv h2 q6 q5 hi.gsOK st.meter.maxInflight (tickReply a hits now)
+            obtain ⟨p1, p2, p3, p4, p5, p6⟩ := observe_miw (cfg := cfg) hgf
+            apply fin (.miw w') false
+            · simp [GFC.addAcquiring, gfcSetLimit, h1, e1, bind, Except.bind, pure, Except.pure]
+            · exact e2
+            · exact e3
+            · intro o o1 o2 _
+              simp only [judgeSetLimit, hprev, p1, if_true, p2, p3, p4, p5, p6, hsch, Option.bind_some, hi.meter, o1, o2]
+              exact e4
+          | tbw w =>
+            have hKt : K = .tb := by
+              obtain ⟨t, q, u, b1, b2, b3, b4, b5, _⟩ := q6
+              rw [← q7]; simp [GFC.inner, b5, Lim.kind]
+            subst hKt
+            obtain ⟨w', b, e1, e2, e3, e4⟩ := tbw_setLimit_inv h2 a1 q5 hi.gsOK st.meter hi.meterOK (tickReply a hits now)
+            obtain ⟨p1, p2, p3, p4, p5⟩ := observe_tbw (cfg := cfg) hgf
+            apply fin (.tbw w') b
+            · simp only [GFC.addAcquiring] at e1 ⊢
+              simp [gfcSetLimit, h1, e1, bind, Except.bind, pure, Except.pure]
+            · exact e2
+            · exact e3
+            · intro o o1 o2 _
+              simp only [judgeSetLimit, hprev, p1, p2, p3, p4, p5, hsch, Option.bind_some, hi.meter, o1, o2]
+              exact e4
+
 
 /-- every operation allowed by `OpOK` runs without panic, preserves the invariant, and the judge accepts it -/
 theorem step_inv {K : Kind} {cfg : Cfg} {st : State} {m : Mon} {op : Op} (hi : Inv K cfg st m) (hop : OpOK K op) :
@@ -1533,6 +2016,8 @@ theorem step_inv {K : Kind} {cfg : Cfg} {st : State} {m : Mon} {op : Op} (hi : I
     | answer named item => exact step_answer hi named item
     | meter x => exact step_meter hi x hop
     | setLimit r => exact step_setLimit hi r
+    | event => exact step_event hi
+    | tick now ans => exact step_tick hi now ans
   obtain ⟨st', h1, h2, h3⟩ := h
   refine ⟨st', h1, h2, ?_⟩
   simp only [judgeStep, judgePost_ok h2, h3, List.append_nil]
@@ -1629,6 +2114,8 @@ theorem monLe_next {m : Mon} {G : Bound} (h : MonLe m G) (op : Op) (o : Obs)
     | answer _ _ => exact h.sch s hs
     | meter _ => exact h.sch s hs
     | setLimit _ => exact h.sch s hs
+    | event => exact h.sch s hs
+    | tick _ _ => exact h.sch s hs
 
 /-- along every allowed operation list whose schemas' global limits are all within `G`, every remote limiter ever
     observed (handed out or not) has the schema's type and is within `G` -/
